@@ -38,13 +38,18 @@ RULE = ('census = for every class of the statement a base instance, every named 
         'construction (setattr of a variant, or a public mutator); the variants include the generic value '
         'families: int for float, integer ndarrays, numpy scalars, full-precision floats, repeated / '
         'descending lists, explicit empty values, notes dictionaries whose keys collide with the '
-        "encoder's own vocabulary; from every instance all sequences over {json, dict} up to the depth "
+        "encoder's own vocabulary; plus, generated from the live constructor signatures, every constructor "
+        'argument given explicitly as None where its default is not None and as the falsy boundary value of its '
+        "type (0, 0.0, False, '', [], {}), kept when the constructor accepts it (quick: depth 1, thorough: full "
+        'depth); from every instance all sequences over {json, dict} up to the depth '
         'are executed on the real classes (edited objects: depth 1); after the comparisons of a transition '
         'the twin object decoded from the same dictionary is edited in place; per class all instances are '
         'also encoded and decoded side by side in one process and as one JSON document; an instance is '
         'non-trivial when it differs from the base instance of its class or nests another pMuTT object, '
         'and a history when it has >= 1 operation')
 ASSUMPTIONS = ['attribute values are taken from the finite menus in SPEC / EXTRA / NOTES_MENU (stated in bounds)',
+               'a generated boundary value (explicit None / 0 / 0.0 / False / empty string, list, dict) is a value of '
+               'the argument when the constructor accepts it, except the entries of BOUNDARY_SKIP (listed in bounds)',
                'a container may change its Python type across the round trip (ndarray -> list, numpy scalar -> '
                'Python number) as long as its contents, the getters and the re-encoded text are unchanged',
                'getters are compared only where the constructed object itself can evaluate them',
@@ -62,11 +67,14 @@ EXPLANATION = ('explicit-state exploration of the implementation; every history 
 LEVEL_TEXT = ('Exhaustive exploration of encode/decode histories (json.dumps with pmuttEncoder + json.loads with '
               'json_to_pmutt, and to_dict/from_dict) of the real classes from every instance of a census that '
               'covers all 29 classes of the statement with one-at-a-time (quick) or pairwise (thorough) attribute '
-              'variants, factory-made and edited-after-construction objects and nested species/reactions/references; '
+              'variants, factory-made and edited-after-construction objects, nested species/reactions/references and, '
+              'generated from the live constructor signatures, every argument given explicitly as None (default not None) '
+              "and as the falsy boundary value of its type (0, 0.0, False, '', [], {}); "
               'class, constructor attributes, every evaluable getter, re-encoding fixpoint, dictionary immutability, '
               'repeatability, purity of encoding and independence of the decoded objects (in-place edits) checked on '
               'every transition; all instances of a class side by side in one process; complete up to the stated depth.')
-LEVEL_NOTE = ('Attribute values come from finite menus; depth 3 (quick) / 5 (thorough), 1 for edited objects; getters on '
+LEVEL_NOTE = ('Attribute values come from finite menus; depth 3 (quick) / 5 (thorough), 1 for edited objects and (quick) for '
+              'the generated boundary values, which are not paired with other variants; getters on '
               'a 2-point (quick) or 5-point (thorough) (T,P) lattice with scalar arguments only.')
 TECHNIQUE = 'explicit-state exploration of operation histories on the implementation, constructed-object oracle'
 
@@ -490,6 +498,118 @@ for _k, _sp in SPEC.items():
     _sp['factories'] = _e.get('factories', {})
     _sp['mutators'] = _e.get('mutators', {})
 
+# ----------------------------------------------------------------------------- boundary values (fourth round)
+# Every constructor argument, found by introspection of the real constructors (following **kwargs up the
+# MRO), is given (a) explicitly as None when its default is NOT None (Nasa9(n_sites=None), QRRHOVib(Bav=None),
+# Shomate(units=None), StatMech(trans_model=None) ...) and (b) as the falsy boundary value of its type: 0 and
+# 0.0 for numbers, False for booleans, '' for strings, [] for lists / arrays, {} for dictionaries.  The type of
+# an argument is taken from its default and from the values the hand-written menus above give it.  "Legitimate"
+# is decided by the library: a value the constructor refuses (exception raised inside pMuTT) is counted under
+# model_refused and not explored; a value it accepts and stores must survive the round trip like any other.
+# An encoder that writes a key only `if value` / `if value is not None`, or a decoder that falls back to the
+# constructor default, differs exactly on these.  The decoded object is compared with the constructed one
+# through its ATTRIBUTES (pMuTT's own __eq__ compares to_dict outputs and cannot see an omitted key).
+BOUNDARY_VALUES = {'none': None, 'int0': 0, 'float0': 0.0, 'false': False, 'emptystr': '', 'emptylist': [],
+                   'emptydict': {}}
+BOUNDARY_DEPTH = {'quick': 1, 'thorough': DEPTH['thorough']}
+BOUNDARY_SKIP = {}          # (class, argument, kind) -> reason: values the constructor stores unvalidated but that
+#                             are not values of the argument (see notes, fourth round)
+for _c in ('Reaction', 'ChemkinReaction', 'SurfaceReaction'):
+    for _a in ('reactants', 'reactants_stoich', 'products', 'products_stoich', 'transition_state'):
+        BOUNDARY_SKIP[(_c, _a, 'emptylist')] = (
+            'a reaction with an empty side, species without coefficients, or an empty transition-state list '
+            'without coefficients is not a reaction: Reaction.to_string (used by to_dict) cannot write it')
+for _a in ('trans_model', 'vib_model', 'rot_model', 'elec_model', 'nucl_model'):
+    BOUNDARY_SKIP[('StatMech', _a, 'none')] = (
+        'None is not a mode model (every getter of such a StatMech raises); the documented value for '
+        '"no such mode" is EmptyMode(), which is in the menu')
+BOUNDARY_SKIP[('References', 'references', 'emptylist')] = (
+    'an empty list of references has no reference temperature (the constructor computes T_ref = mean([]) = NaN); '
+    'the documented value for "no references" is None, which is in the menu')
+for _c in ('Nasa', 'Nasa9', 'Shomate', 'Reference'):
+    BOUNDARY_SKIP[(_c, 'add_gas_P_adj', 'none')] = (
+        'a documented bool that is only tested for truth at construction; the encoder writes the flag as a '
+        'bool, so None comes back as False (add_gas_P_adj=False itself is in the family)')
+_BOUNDARY = {}              # (class key, variant name) -> (argument, kind); filled by _ensure_boundary()
+
+
+def _spec_kind(v):
+    if isinstance(v, (bool, np.bool_)):
+        return 'bool'
+    if isinstance(v, (int, float, np.integer, np.floating)):
+        return 'num'
+    if isinstance(v, str):
+        return 'str'
+    if isinstance(v, (list, tuple, np.ndarray)):
+        return 'list'
+    if isinstance(v, dict):
+        if '$np' in v:
+            return 'list'
+        if '$npf' in v or '$npi' in v:
+            return 'num'
+        if '$r' in v:
+            return None
+        return 'dict'
+    return None
+
+
+def _ctor_defaults(cls):
+    """{constructor parameter: default (inspect._empty when required)}, following **kwargs up the MRO."""
+    out = {}
+    for k in cls.__mro__:
+        init = k.__dict__.get('__init__')
+        if init is None:
+            continue
+        more = False
+        for p in inspect.signature(init).parameters.values():
+            if p.name == 'self' or p.kind == p.VAR_POSITIONAL:
+                continue
+            if p.kind == p.VAR_KEYWORD:
+                more = True
+            elif p.name not in out:
+                out[p.name] = p.default
+        if not more:
+            break
+    return out
+
+
+def _ensure_boundary():
+    """Generate the boundary variants from the live constructors (once per process)."""
+    if _BOUNDARY.get('done'):
+        return
+    for k in sorted(SPEC):
+        sp = SPEC[k]
+        modname, clsname = sp['cls'].split(':')
+        cls = getattr(importlib.import_module(modname), clsname)
+        hand = dict(sp['variants'])
+        for p, default in _ctor_defaults(cls).items():
+            kinds = {_spec_kind(src[p]) for src in [sp['base']] + list(hand.values()) if p in src}
+            if default is not inspect._empty:
+                kinds.add(_spec_kind(default))
+            cands = []
+            if default is not inspect._empty and default is not None:
+                cands.append('none')
+            cands += [c for c, need in (('int0', 'num'), ('float0', 'num'), ('false', 'bool'), ('emptystr', 'str'),
+                                        ('emptylist', 'list'), ('emptydict', 'dict')) if need in kinds]
+            for kind in cands:
+                val = BOUNDARY_VALUES[kind]
+                if (k, p, kind) in BOUNDARY_SKIP:
+                    continue
+                if p in sp['base'] and type(sp['base'][p]) is type(val) and sp['base'][p] == val:
+                    continue                    # the base instance itself
+                if any(set(v) == {p} and type(v[p]) is type(val) and v[p] == val for v in hand.values()):
+                    continue                    # a hand-written variant is exactly this
+                name = '%s=%s' % (p, kind)
+                sp['variants'][name] = {p: copy.deepcopy(val)}
+                _BOUNDARY[(k, name)] = (p, kind)
+    _BOUNDARY['done'] = True
+
+
+def is_boundary(recipe):
+    k, vs, fac, edit = parse(recipe)
+    return any((k, v) in _BOUNDARY for v in vs)
+
+
 CLASSES = sorted(SPEC)
 
 # nesting chains the census is meant to contain (anti-vacuity tags)
@@ -509,7 +629,9 @@ PLANNED_TAGS = (['roundtrip:%s' % k for k in CLASSES] + ['getters:%s' % k for k 
                    'value:notes-reserved-key', 'value:notes-nested', 'value:repeated-items',
                    'value:full-precision-float', 'made-by:factory', 'made-by:setattr', 'made-by:mutator',
                    'edited-then-encoded', 'poke:list', 'poke:dict', 'poke:ndarray', 'side-by-side',
-                   'side-by-side:several-objects', 'one-document:list-in-plain-dict']
+                   'side-by-side:several-objects', 'one-document:list-in-plain-dict',
+                   'boundary:refused-by-constructor']
+                + ['boundary:' + b_ for b_ in sorted(BOUNDARY_VALUES)]
                 + sorted(NEST_TAGS))
 
 # minimum number of distinct getters that must have been *evaluated and compared* on some instance
@@ -531,6 +653,9 @@ def bounds(tier):
                 variants_per_class={k: len(SPEC[k]['variants']) for k in CLASSES},
                 factories_per_class={k: len(SPEC[k]['factories']) for k in CLASSES if SPEC[k]['factories']},
                 notes_menu=sorted(NOTES_MENU),
+                boundary_instances=sum(is_boundary(r) for r in inst), boundary_values=sorted(BOUNDARY_VALUES),
+                boundary_depth=BOUNDARY_DEPTH[tier],
+                boundary_not_explored=sorted('%s(%s=%s)' % k_ for k_ in BOUNDARY_SKIP),
                 lattice_T_P=LATTICE[tier], histories_per_instance=sum(len(OPS) ** d for d in range(1, DEPTH[tier] + 1)))
 
 
@@ -538,10 +663,14 @@ def instances(tier):
     """Census recipes.  Grammar: ``Class[+variant...]`` (constructor), ``Class@factory`` (classmethod or
     preset), each optionally followed by ``~variant`` (the variant's attributes assigned with setattr
     *after* construction) or ``~!mutator`` (a public mutating method called after construction)."""
+    _ensure_boundary()
     out = []
     for k in CLASSES:
         out.append(k)
-        vs = sorted(SPEC[k]['variants'])
+        bvs = sorted(v for v in SPEC[k]['variants'] if (k, v) in _BOUNDARY)
+        vs = sorted(v for v in SPEC[k]['variants'] if (k, v) not in _BOUNDARY)
+        # generated boundary variants: constructor instances only (no setattr edit, no pairing)
+        out += ['%s+%s' % (k, v) for v in bvs]
         out += ['%s+%s' % (k, v) for v in vs]
         out += ['%s@%s' % (k, f) for f in sorted(SPEC[k]['factories'])]
         out += ['%s~%s' % (k, v) for v in vs if v not in NO_EDIT.get(k, ())]
@@ -565,6 +694,7 @@ def class_key(recipe):
 
 def parse(recipe):
     """(class key, variant names, factory name or None, edit name or None)"""
+    _ensure_boundary()
     head, _, edit = recipe.partition('~')
     if '@' in head:
         k, f = head.split('@')
@@ -1544,6 +1674,12 @@ def run_shard(shard, ctx):
             except NotApplicable as e:
                 res['skip'] = str(e)
                 return
+            except Exception as e:
+                if is_boundary(case_['recipe']) and core.classify_exception(e) is not None:
+                    # the constructor itself refuses the boundary value: not a legitimate value of the argument
+                    res['refused'] = '%s refused by the constructor (%s)' % (case_['recipe'], type(e).__name__)
+                    return
+                raise
             k_, vs_, fac_, edit_ = parse(case_['recipe'])
             if edit_ is not None and not edit_.startswith('!'):
                 # assignment after construction is explored only where it leaves the object in exactly the
@@ -1559,12 +1695,20 @@ def run_shard(shard, ctx):
         if 'skip' in res:
             ctx.refuse('edit after construction not explored: %s' % res['skip'])
             continue
+        if 'refused' in res:
+            ctx.refuse('boundary value: ' + res['refused'])
+            ctx.tag('boundary:refused-by-constructor')
+            continue
+        if is_boundary(recipe):
+            ctx.tag('boundary:' + [_BOUNDARY[(cname, v)][1] for v in parse(recipe)[1] if (cname, v) in _BOUNDARY][0])
         if '~' in recipe:
             # an edited object that passed the filter above is, after one decode, the state reached from
             # the constructed twin (mutators: from an object constructed with the edited lists): longer
             # histories from it are those of plainly constructed census members
             depth = 1
             ctx.tag('edited-then-encoded')
+        elif is_boundary(recipe):
+            depth = min(shard['depth'], BOUNDARY_DEPTH[tier])
         else:
             depth = shard['depth']
         ctx.state(('s', core.dumps(res['obs'])))
